@@ -16,7 +16,7 @@ CHECK = {
              'original storage released} x every public function that reads/transfers/releases the pointer x argument '
              'position; each cell must arrive in the library abort() (interposed) under ASan, then the original is exercised '
              'and everything is released with no live library block left. B: the well-formed random and closure histories of '
-             'the C05 generator (and of the C14 generator via its own check) run with "any abort is a violation". Distinct = '
+             'the C05 generator (and of the C14 generator via its own check) run with "any abort is a violation". Pair cells: a struct of two or three smart-pointer members duplicated as a whole (assignment / memcpy) to 8 placements (adjacent, +-4 KiB, aligned and not, separate allocation) so that BOTH operands of swap/copy/share/from/lock/slice/unslice are strays displaced by the same distance; two proper objects exchanged by hand and then handed to the library swap; one stray in both operand positions. For every aborting cell nothing may happen between the call and the abort: no clear callback, no free/realloc (allocator event window). Distinct = '
              'matrix cells (kind, state, way, probe).'),
     'assumptions': ['a stray copy is an object whose bytes equal the original\'s but which lives at another address',
                     'functions that never look at the pointer are out of scope and listed in the evidence'],
